@@ -1,5 +1,57 @@
-import ZorgVerif.Model.Zo
+import ZorgVerif.Lemmas.Zo
+/-!
+# C02 — Notes inherit metadata from the page title and enclosing sections only
+Model: `Model/Zo.lean`.  A note is built by `finishItem` from the file scope, the stack of open section
+scopes and its own events; these theorems pin down what that stack can contain.
+-/
 namespace ZorgVerif.C02
-open ZorgVerif.Zo
-theorem C02_placeholder : mergeProps [("k".toList, "a".toList)] [("k".toList, "b".toList)] = [("k".toList, "b".toList)] := by decide
+open ZorgVerif ZorgVerif.Lex ZorgVerif.Zo
+
+/-- opening a level-k header removes every scope of level ≥ k (sibling, earlier and deeper sections) and
+keeps exactly the enclosing ones -/
+theorem C02_header_resets (k : Nat) (s : List (Nat × Str × Scope)) (x : Nat × Str × Scope) :
+    x ∈ closeTo k s ↔ x ∈ s ∧ x.1 < k := mem_closeTo k s x
+
+/-- the stack of open sections is strictly increasing in level at all times, so it holds at most one
+section per level — the enclosing ones, innermost last -/
+theorem C02_stack_sorted (today : Date) (dp : Str) (fuel f : Nat) (st st' : St) (cur : Option Item) (lines : List Line)
+    (h : bodyLines today dp fuel f st cur lines = .ok st') (hs : Sorted st.scopes) :
+    Sorted st'.scopes ∧ st'.file = st.file := by
+  obtain ⟨a, b, _⟩ := bodyLines_sorted h hs
+  exact ⟨a, b⟩
+
+/-- every note of a compiled page was built from the page's file scope and a sorted stack of enclosing
+sections (nothing else is in reach of `finishItem`) -/
+theorem C02_built_from_enclosing (today : Date) (dp : Str) (toks : List Tok) (res : PageResult)
+    (h : compileToks today dp toks = .ok res) :
+    ∀ note ∈ res.notes, ∃ file, BuiltSorted today dp (toks.length + 2) file note :=
+  fun n hn => ((compileToks_notes h).2 n hn).2
+
+/-- in-block comments are inert: a comment line changes nothing but the block bookkeeping -/
+theorem C02_comment_inert (today : Date) (dp : Str) (fuel f : Nat) (st : St) (no : Nat) (ts : List Tok) (nl : Str)
+    (rest : List Line) (atoms : List Tok) (hc : classify ts = .comment atoms) :
+    bodyLines today dp fuel (f + 1) st none ((no, ts, nl) :: rest) =
+      if nl.isEmpty then .error (.syntax "missing newline at end of file")
+      else (spaceAtoms fuel atoms).bind fun _ => bodyLines today dp fuel f (openBlock st) none rest :=
+  bodyLines_comment_step today dp fuel f st no ts nl rest atoms hc
+
+/-- tag names made only of digits never enter a scope -/
+theorem C02_digit_tags_dropped (q : Bool) (sc sc' : Scope) (tt tp td : Bool) (ev : Ev)
+    (h : addEv q sc tt tp td ev = .ok sc') :
+    (∀ p ∈ sc'.tags, p ∈ sc.tags ∨ p.2.all isDigit = false) ∧ (∀ l ∈ sc'.links, l ∈ sc.links ∨ l.all isDigit = false) :=
+  ⟨addEv_tags h, addEv_links h⟩
+
+/-- tags / links are taken only where the scope flag allows (first header line, section headers, notes);
+properties only in the header block, section headers and notes; dates likewise -/
+theorem C02_flags (q : Bool) (sc sc' : Scope) (tt tp td : Bool) (ev : Ev) :
+    (addEv q sc false tp td ev = .ok sc' → sc'.tags = sc.tags ∧ sc'.links = sc.links) ∧
+    (addEv q sc tt false td ev = .ok sc' → sc'.props = sc.props) ∧
+    (addEv q sc tt tp false ev = .ok sc' → sc'.date = sc.date) :=
+  ⟨addEv_noTags, addEv_noProps, addEv_noDate⟩
+
+/-- for properties with the same key the innermost scope wins (right-biased merge) -/
+theorem C02_innermost_wins (outer inner : List (Str × Str)) (k : Str) :
+    (mergeProps outer inner).lookup k = (inner.lookup k).orElse (fun _ => outer.lookup k) :=
+  mergeProps_lookup outer inner k
+
 end ZorgVerif.C02
